@@ -269,10 +269,12 @@ impl WmoParser {
         let n_doodad_defs = reader.read_u32_le()?;
         let n_doodad_sets = reader.read_u32_le()?;
         let color_bytes = reader.read_u32_le()?;
-        let flags = WmoFlags::from_bits_truncate(reader.read_u32_le()?);
 
-        // Skip some fields (depending on version)
-        reader.seek(SeekFrom::Current(8))?; // Skip bounding box - we'll calculate this from groups
+        // +0x20: wmoID (not kept), +0x24: bounding box (calculated from the groups instead)
+        reader.seek(SeekFrom::Current(4 + 24))?;
+
+        // +0x3C: flags (u16), followed by numLod (u16)
+        let flags = WmoFlags::from_bits_truncate(reader.read_u16_le()? as u32);
 
         // Create color from bytes
         let ambient_color = Color {
